@@ -24,8 +24,8 @@ elif [ "$base" = "$mut" ]; then echo "demo does not distinguish"; exit 4; fi
 if [ "$nfail" != "0" ]; then echo "repo tests fail with the mutant:"; echo "$tests"; exit 5; fi
 mkdir -p $OUT; cp $SRC/patch.diff $OUT/; cp $SRC/demo* $SRC/*.ddp $SRC/run.sh $OUT/ 2>/dev/null; cp $SRC/README.txt $OUT/ 2>/dev/null
 python3 - "$OUT" "$PROP" "$NEEDS" "$base" "$mut" "$tests" "$FLAGS" <<'P'
-import json,sys
-out,prop,needs,base,mut,tests,flags=sys.argv[1:8]
+import json,sys,os
+out,prop,needs,base,mut,tests,flags=[os.fsencode(a).decode('utf-8','replace') for a in sys.argv[1:8]]
 json.dump(dict(property=prop, needs_to_manifest=needs, demo="demo.ddp", demo_flags=flags,
   confirmed=dict(how="scratch worktree of /repo HEAD: build, demo; git apply patch.diff, build, demo, go test ./src/...",
                  demo_output_without_change=base[-1500:], demo_output_with_change=mut[-1500:], repo_tests_with_change=tests.splitlines())),
